@@ -4,7 +4,12 @@
 #include "../wrapint/wrapint_contracts.h"
 uint64_t g_w;                        /* ghost: the bit width of the operation (fixed to WID when the check varies WID) */
 uint64_t g_x, g_y;                   /* ghost concrete g_w-bit values: arbitrary, never assigned by the code */
-#define GW (g_w >= 1 && g_w <= 64 && FIXW(g_w))
+#ifdef WIW                            /* vary=WIW:...: one run per width; the wrapint contracts stay width-generic */
+#define FIXWI(w) ((w) == WIW)
+#else
+#define FIXWI(w) 1
+#endif
+#define GW (g_w >= 1 && g_w <= 64 && FIXWI(g_w))
 #define GPTS (g_x <= msk(g_w) && g_y <= msk(g_w))
 #define HG GHOSTG(uint64_t, g_w); GHOSTG(uint64_t, g_x); GHOSTG(uint64_t, g_y)
 #define M (msk(g_w))
@@ -45,14 +50,14 @@ __CPROVER_ensures(__CPROVER_return_value ==> wi_has(*self, g_x));
 void h_is_top(void){ IN(WI, a); HG; WI_is_top(&a); REACH; }
 
 #define R_TOP _ZN4crab7wrapint16get_unsigned_maxEm,_ZNK4crab7wrapint12get_bitwidthEv,_ZNK4crab7wrapintmiES0_,_ZNK4crab7wrapinteqES0_
-//@check id=at fn=_ZNK4crab7domains16wrapped_intervalIN4ikos8z_numberEE2atENS_7wrapintE props=C13,C04 replace=_ZN4crab7wrapint16get_unsigned_maxEm,_ZNK4crab7wrapint12get_bitwidthEv,_ZNK4crab7wrapintmiES0_,_ZNK4crab7wrapinteqES0_,_ZNK4crab7wrapintleES0_ vary=WID:1,8,64
+//@check id=at fn=_ZNK4crab7domains16wrapped_intervalIN4ikos8z_numberEE2atENS_7wrapintE props=C13,C04 replace=_ZN4crab7wrapint16get_unsigned_maxEm,_ZNK4crab7wrapint12get_bitwidthEv,_ZNK4crab7wrapintmiES0_,_ZNK4crab7wrapinteqES0_,_ZNK4crab7wrapintleES0_ vary=WIW:1,8,64
 unsigned char WI_at(WI *self, W *x)
 __CPROVER_requires(FRESH(at, self, sizeof(WI)) && FRESH(at, x, sizeof(W)) && GW && wi_okw(*self, g_w) && w_ok(*x) && WD(x) == g_w)
 __CPROVER_assigns()
 __CPROVER_ensures((__CPROVER_return_value != 0) == wi_has(*self, N(x)));
 void h_at(void){ IN(WI, a); IN(W, v); HG; WI_at(&a, &v); REACH; }
 
-//@check id=add fn=_ZNK4crab7domains16wrapped_intervalIN4ikos8z_numberEEplERKS4_ props=C13 replace=_ZN4crab7wrapint16get_unsigned_maxEm,_ZNK4crab7wrapint12get_bitwidthEv,_ZNK4crab7wrapintmiES0_,_ZNK4crab7wrapinteqES0_,_ZNK4crab7wrapintleES0_,_ZNK4crab7wrapintplES0_,_ZN4crab7wrapintC1Emm vary=WID:1,2,8,32,64
+//@check id=add fn=_ZNK4crab7domains16wrapped_intervalIN4ikos8z_numberEEplERKS4_ props=C13 replace=_ZN4crab7wrapint16get_unsigned_maxEm,_ZNK4crab7wrapint12get_bitwidthEv,_ZNK4crab7wrapintmiES0_,_ZNK4crab7wrapinteqES0_,_ZNK4crab7wrapintleES0_,_ZNK4crab7wrapintplES0_,_ZN4crab7wrapintC1Emm vary=WIW:8,32
 void WI_add(WI *ret, WI *self, WI *x)
 __CPROVER_requires(FRESH(add, ret, sizeof(WI)) && FRESH(add, self, sizeof(WI)) && FRESH(add, x, sizeof(WI)) && GW && GPTS && wi_okw(*self, g_w) && wi_okw(*x, g_w))
 __CPROVER_assigns(*ret)
